@@ -79,6 +79,74 @@ def biased_tt_plan(rng, P, maxlen):
     return steps
 
 
+def _bool_writes(P):
+    """(action, effect) pairs: unconditional-or-not Boolean assignments of a constant to a fluent whose arguments are
+    objects or parameters (syntactic)"""
+    fl = {f["name"]: f for f in P["fluents"]}
+    out = []
+    for a in P["actions"]:
+        if any(p["type"]["k"] != "user" for p in a["params"]):
+            continue
+        for te in a["effects"]:
+            ef = te["e"] if a["kind"] == "dur" else te
+            if (fl[ef["f"]["name"]]["type"]["k"] == "bool" and ef["kind"] == "assign" and not ef["forall"]
+                    and ef["v"]["op"] == "const" and all(x["op"] in ("obj", "param") for x in ef["f"]["args"])):
+                out.append((a, ef))
+    return out
+
+
+def window_goal(rng, P):
+    """a timed goal over a non-degenerate window [a, b] (a < b, either end open or closed) on a literal that an action
+    of the problem writes, so that BOTH ends of the window constrain where that action's effect may go: mostly the
+    action falsifies the literal (it has to stay before a or after b), sometimes it establishes it; sometimes a timed
+    effect establishes the literal at or before a"""
+    cands = _bool_writes(P)
+    if not cands:
+        return P
+    a, ef = rng.choice(cands)
+    ptypes = {p["name"]: p["type"]["name"] for p in a["params"]}
+    args = [x if x["op"] == "obj" else E("obj", name=rng.choice(upj.objs_of(P, ptypes[x["name"]]))) for x in ef["f"]["args"]]
+    atom = E("fluent", args, name=ef["f"]["name"])
+    writes = ef["v"]["v"]["b"]
+    holds = (not writes) if rng.random() < 0.75 else writes
+    lo = rng.choice([0, Fraction(1, 2), 1, 1, 2])
+    hi = lo + rng.choice([Fraction(1, 2), 1, 1, Fraction(3, 2), 2])
+    P["timed_goals"].append({"iv": {"lo": T("gstart", lo), "hi": T("gstart", hi), "lopen": rng.random() < 0.25, "ropen": rng.random() < 0.25},
+                             "g": atom if holds else E("not", [atom])})
+    if lo > 0 and rng.random() < 0.5:
+        t = T("gstart", rng.choice([x for x in (Fraction(1, 2), 1, Fraction(3, 2), 2) if x <= lo]))
+        key = {"name": atom["name"], "args": args}
+        if not any(te["t"] == t and te["e"]["f"] == key for te in P["timed_effects"]):
+            P["timed_effects"].append({"t": t, "e": {"kind": "assign", "f": key, "v": C(BV(holds)), "c": TRUE_E, "forall": []}})
+    return P
+
+
+def anchors_of(P):
+    """the absolute times the problem itself mentions: ends of timed-goal windows, timed effects"""
+    out = []
+    for tg in P["timed_goals"]:
+        out += [timeobs.frac(tg["iv"]["lo"]["delay"]), timeobs.frac(tg["iv"]["hi"]["delay"])]
+    out += [timeobs.frac(te["t"]["delay"]) for te in P["timed_effects"]]
+    return out
+
+
+def anchored_tt_plan(rng, P, maxlen):
+    """like biased_tt_plan, but the start or the end of each step lands on / half a unit around one of the absolute
+    times of the problem (just before, at, just after the ends of the timed-goal windows and the timed effects)"""
+    steps = biased_tt_plan(rng, P, maxlen)
+    anchors = anchors_of(P)
+    if not anchors:
+        return steps
+    for st in steps:
+        if rng.random() < 0.25:
+            continue
+        t = rng.choice(anchors) + rng.choice([-1, Fraction(-1, 2), 0, Fraction(1, 2), Fraction(1, 2), 1])
+        if rng.random() < 0.5:
+            t -= timeobs.frac(st["d"])
+        st["t"] = NV(max(Fraction(0), t))
+    return steps
+
+
 def features(P, steps):
     """syntactic input features used in signatures"""
     acts = {a["name"]: a for a in P["actions"]}
@@ -211,7 +279,7 @@ def cand_worker(job):
         return rec
     seen, liked, others = set(), [], []
     for k in range(ncand):
-        steps = random_tt_plan(rng, P, maxlen) if k % 3 == 0 else biased_tt_plan(rng, P, maxlen)
+        steps = (random_tt_plan, biased_tt_plan, anchored_tt_plan)[k % 3](rng, P, maxlen)
         if not steps or repr(steps) in seen:
             continue
         seen.add(repr(steps))
@@ -332,10 +400,12 @@ def corpus(ctx, n_t, n_i, nprobe):
     out = probes(rng, nprobe)
     tg = [TGen(rng), TGen(rng, fixed_durations=True), TGen(rng, invariants=False, timed=True)]
     for i in range(n_t):
-        out.append(loosen(rng, tg[i % 3 if i % 4 else 0].problem()))
+        P = loosen(rng, tg[i % 3 if i % 4 else 0].problem())
+        out.append(window_goal(rng, P) if i % 3 == 1 else P)
     ig = Gen(rng, objfluents=False, undefined=False, hier=False, max_objects=2, max_fluents=4, max_actions=3)
     for i in range(n_i):
-        out.append(loosen(rng, ig.problem()))
+        P = loosen(rng, ig.problem())
+        out.append(window_goal(rng, P) if i % 2 == 1 else P)
     return out
 
 
